@@ -122,17 +122,26 @@ def _b58_address(ctx, fn, attr, builder):
     if D is None:
         return
     P = "len(%s)" % attr
-    payload_texts = {"len(%s[%s:])" % (D, P)}
+    payload_texts = {"len(%s[%s:])" % (D, P), "-%s + len(%s)" % (P, D), "len(%s) - %s" % (D, P)}       # the payload length, also as a difference of lengths
     l1 = sym.value_leaf(lambda e: norm(e) == "len(%s)" % D, lambda e: ("s", 0) if norm(e) == P else (("s", df.const_int(e.right)) if isinstance(e, ast.BinOp) and isinstance(e.op, ast.Add) and norm(e.left) == P and df.const_int(e.right) is not None else df.const_int(e)))
     l2 = sym.value_leaf(lambda e: norm(e) in payload_texts, lambda e: ("s", df.const_int(e)) if df.const_int(e) is not None else None)
 
+    cut20 = ("20 == len(%s[%s:%s + 20])" % (D, P, P), "len(%s[%s:%s + 20]) == 20" % (D, P, P))
+
     def leaf(e, text):
+        if text in cut20:
+            # `the first 20 bytes after the prefix are 20 bytes`: true for every payload of 20 bytes OR MORE
+            return ("set", iv(("s", 20), None))
         r = l1(e, text)
         return r if r[0] == "set" else l2(e, text)
     w = sym.walk(ctx, f, leaf)
     for e in sym.calls_matching(w, "." + builder):
         s = sym.may_set(e.reach, U, E)
         want = iv(("s", 20), ("s", 20))
+        if s == U:
+            unread = [o for o in (gi.f_opaques(e.reach) if e.reach not in (True, False) else []) if isinstance(o, str) and "len(%s" % D in o]
+            if unread:
+                raise Undecided("ParseAPI.%s tests the payload length as `%s`, a form this rule does not read" % (fn, unread[0][:80]))
         ctx.check(s == want, "payload-length:%s" % fn, ctx.where(f, e.node),
                   "ParseAPI.%s accepts payloads of total length %s; an address carries exactly a 20-byte hash after the prefix (%s)" % (fn, s.fmt("len(prefix)"), want.fmt("len(prefix)")),
                   sample={"function": fn, "subject": "len(data)", "accepted": s.fmt("len(prefix)")})
@@ -262,7 +271,18 @@ def c08_4(ctx):
     capi = ctx.p.cls(CAPI, "ContractAPI")
     f = capi.methods.get("_is_nonminimal_push")
     if f is None:
-        ctx.bad("minimal-push-definition", "%s:%d" % (CAPI, capi.node.lineno), "ContractAPI has no minimal-push predicate tied to the push encoder (compile_push_data): classification cannot be faithful to for_info's rebuild")
+        # the predicate is gone: either it was inlined (its callers then compare the opcode with what the encoder would choose)
+        # or the test itself is gone
+        callers = [ctx.func(CAPI, "ContractAPI.match"), ctx.func(CAPI, "ContractAPI._info_from_multisig_script")]
+        tested = []
+        for cf in callers:
+            sd = df.single_defs(cf.node)
+            cmps = [c for c in ast.walk(cf.node) if isinstance(c, ast.Compare)]
+            tested.append(any("compile_push_data(" in norm(df.expand(c, sd)) for c in cmps))
+        if all(tested):
+            ctx.undecided("minimal-push-definition", "%s:%d" % (CAPI, capi.node.lineno), "ContractAPI._is_nonminimal_push of the reviewed tree is gone; its callers test the encoder's choice themselves (inlined): the classifier comparison below reads them")
+        else:
+            ctx.bad("minimal-push-definition", "%s:%d" % (CAPI, capi.node.lineno), "ContractAPI has no minimal-push test tied to the push encoder (compile_push_data), neither as a predicate nor inside match / _info_from_multisig_script: classification cannot be faithful to for_info's rebuild")
     else:
         op, data = f.params()[1:3]
         w = sym.walk(ctx, f)
